@@ -622,11 +622,24 @@ pub fn leak(s: &str) -> &'static str {
     Box::leak(s.to_string().into_boxed_str())
 }
 
-type EStore = jbk::creator::EntryStore<&'static str, &'static str, jbk::creator::BasicEntry<&'static str, &'static str>>;
+type BEntry = jbk::creator::BasicEntry<&'static str, &'static str>;
+type EStore = jbk::creator::EntryStore<&'static str, &'static str, BEntry>;
+/// the same store with boxed entries (`EntryTrait` / `FullEntryTrait` are implemented for `Box<T>`)
+type EStoreBoxed = jbk::creator::EntryStore<&'static str, &'static str, Box<BEntry>>;
+
+/// A third of the cases hand their entries over boxed (decided by the case seed, so that a case always does the same).
+pub fn boxed_entries(case: &DirCase) -> bool {
+    case.seed % 3 == 0
+}
+
+pub enum AnyStore {
+    Plain(Box<EStore>),
+    Boxed(Box<EStoreBoxed>),
+}
 
 pub struct Built {
     pub value_stores: Vec<jbk::creator::StoreHandle>,
-    pub entry_stores: Vec<Box<EStore>>,
+    pub entry_stores: Vec<AnyStore>,
     /// per store, per insertion number: the handle `add_entry` returned
     pub handles: Vec<Vec<jbk::Bound<jbk::EntryIdx>>>,
     pub models: Vec<Vec<EntryModel>>,
@@ -665,7 +678,11 @@ pub fn build(case: &DirCase) -> Built {
                 .collect(),
             st.sort.as_ref().map(|ks| ks.iter().map(|k| leak(k)).collect()),
         );
-        let mut store: Box<EStore> = Box::new(jbk::creator::EntryStore::new(sch, Some(st.n)));
+        let mut store = if boxed_entries(case) {
+            AnyStore::Boxed(Box::new(jbk::creator::EntryStore::new(sch, Some(st.n))))
+        } else {
+            AnyStore::Plain(Box::new(jbk::creator::EntryStore::new(sch, Some(st.n))))
+        };
         let model = expand(case, si);
         // all vows are created and bound first, then moved into their entries
         let vows: Vec<jbk::Vow<jbk::EntryIdx>> = std::mem::take(&mut all_vows[si]);
@@ -695,8 +712,16 @@ pub fn build(case: &DirCase) -> Built {
                 values.insert(name, v);
             }
             let vname = em.variant.map(|i| leak(&st.variants[i].name));
-            let entry = jbk::creator::BasicEntry::new_from_schema_idx(&store.schema, vow, vname, values);
-            hs.push(store.add_entry(entry));
+            match &mut store {
+                AnyStore::Plain(store) => {
+                    let entry = jbk::creator::BasicEntry::new_from_schema_idx(&store.schema, vow, vname, values);
+                    hs.push(store.add_entry(entry));
+                }
+                AnyStore::Boxed(store) => {
+                    let entry = jbk::creator::BasicEntry::new_from_schema_idx(&store.schema, vow, vname, values);
+                    hs.push(store.add_entry(Box::new(entry)));
+                }
+            }
         }
         entry_stores.push(store);
         handles.push(hs);
@@ -743,7 +768,10 @@ pub fn install(case: &DirCase, built: Built, creator: &mut jbk::creator::Directo
     }
     let mut ids = vec![];
     for es in built.entry_stores {
-        ids.push(creator.add_entry_store(es));
+        ids.push(match es {
+            AnyStore::Plain(s) => creator.add_entry_store(s),
+            AnyStore::Boxed(s) => creator.add_entry_store(s),
+        });
     }
     for ix in &case.indexes {
         // The window's first entry is given either as a constant position or (half of the windows of a case with a
